@@ -100,11 +100,11 @@ def _one_tag_text(t):
 
 
 def _word(t):
-    """t is a non-empty run of ASCII letters/digits (one tag; used where the shape of the text is not the subject)"""
+    """t is a non-empty run of lower-case ASCII letters (one tag; used where the text's shape is not the subject)"""
     if len(t) == 0:
         return False
     for c in t:
-        if not ("a" <= c <= "z" or "A" <= c <= "Z" or "0" <= c <= "9"):
+        if not (97 <= ord(c) <= 122):      # ord(): one branch; `"a" <= c` on a symbolic character forks three ways
             return False
     return True
 
@@ -649,7 +649,7 @@ HARNESSES = [
                           _ER + "ErrorHandler.filter_issues_by_severity", _ER + "hed_error",
                           _ER + "hed_tag_error"] + _T_DECOR,
         quick=R.tier(cells=R.int_cells("VP_KIND", 0, 3), env={"VP_N": 2}, timeout=300,
-                     bound="string 'y, ' + t, t letters/digits with 1 <= len(t) <= 2; issue kind in {fragment, whole "
+                     bound="string 'y, ' + t, t lower-case letters with 1 <= len(t) <= 2; issue kind in {fragment, whole "
                            "tag, tag-less, foreign tag}; severity override in {1,10}; warnings on/off; 1 or 2 "
                            "decoration passes; three decoration routes; any row number"),
         thorough=R.tier(cells=R.product_cells(R.int_cells("VP_KIND", 0, 3), R.int_cells("VP_ROUTE", 0, 2)),
@@ -667,7 +667,7 @@ HARNESSES = [
         quick=R.tier(cells=R.int_cells("VP_B0", 0, 4), env={"VP_N": 1}, timeout=300,
                      bound="real HedValidator.validate over every combination of 2 basic-stage and 1 full-stage "
                            "issue slots (none / located warning / located error / tag-less warning / tag-less "
-                           "error), warnings on/off, handler with/without the string; t one letter/digit"),
+                           "error), warnings on/off, handler with/without the string; t one lower-case letter"),
         thorough=R.tier(cells=R.int_cells("VP_B0", 0, 4), env={"VP_N": 2}, timeout=600,
                         bound="as quick with 1 <= len(t) <= 2"),
         what="issues returned by HedValidator.validate are well-formed, located iff they name a tag and the handler "
@@ -704,7 +704,7 @@ HARNESSES = [
         quick=R.tier(env={"VP_N": 2}, timeout=150,
                      bound="issue lists of 2..5 issues of every kind decorated with file, row and string context, "
                            "optional nested list/dict values holding tag/string references, 1 or 2 replacement "
-                           "passes, list or dict top level; t letters/digits, len <= 2"),
+                           "passes, list or dict top level; t lower-case letters, len <= 2"),
         thorough=R.tier(env={"VP_N": 3}, timeout=600, bound="as quick with len(t) <= 3"),
         what="after replace_tag_references every value is a JSON value (checked structurally), codes and "
              "severities unchanged, the string context and source_tag became text (source_tag == the tag's text)",
